@@ -587,15 +587,20 @@ func init() {
 		}
 
 		// ---------------------------------------------------------------------------------- deleteJournal
-		recheck := false
+		recheck, syncsFirst := false, false
 		if dd := funcDecl(f, "Service", "deleteJournal"); dd == nil {
 			problem("partition.Service.deleteJournal not found")
 		} else {
-			locked, deleted := false, false
+			locked, deleted, synced := false, false, false
 			pp.walk(dd, 2, func(n ast.Node, _ bool) {
 				switch s := n.(type) {
 				case *ast.CallExpr:
 					switch selName(s.Fun) {
+					case "Sync":
+						// <journal>.Sync() under the exclusive lock, before the size re-check
+						if locked && !deleted && !recheck {
+							synced = true
+						}
 					case "LockExclusively":
 						locked = true
 					case "Delete":
@@ -635,6 +640,7 @@ func init() {
 					}
 					if unl && ret {
 						recheck = true
+						syncsFirst = synced
 					}
 				}
 			})
@@ -700,6 +706,8 @@ func init() {
 		l.p("def hullUpdateIndependentIfs : Bool := %s", leanBool(indep))
 		l.p("/-- `deleteJournal` re-checks the journal's size (> 0: unlock, return false) between `LockExclusively` and `TIndex.Delete` -/")
 		l.p("def deleteJournalRechecksSize : Bool := %s", leanBool(recheck))
+		l.p("/-- `deleteJournal` calls `Sync()` on the journal under the exclusive lock before that re-check (acknowledged records count in `Size()` only after their flush) -/")
+		l.p("def deleteJournalSyncsBeforeRecheck : Bool := %s", leanBool(syncsFirst))
 		l.p("/-- `truncate` (or a helper it calls) reads `Size()` of the journal for the total -/")
 		l.p("def truncateReadsJournalSize : Bool := %s", leanBool(readsJournalSize))
 		l.p("/-- the total is accumulated as `A[i] = uint64(c.Size()); total += A[i]` over one snapshot of the chunk sizes -/")
